@@ -142,14 +142,14 @@ CLAIMS['C04'] = dict(
     technique=TECH_B, engine='pysym', ref='DESIGN.md section 3, C04')
 
 CLAIMS['C05'] = dict(
-    text='Every kernel reachable from a public wrapper (33 entry points) is executed symbolically under the precondition its Cython and Python wrappers '
+    text='Every kernel reachable from a public wrapper (37 entry points) is executed symbolically under the precondition its Cython and Python wrappers '
          'establish, with symbolic contents (finite, NaN, huge, infinities where a float->int conversion follows), cell numbers and scalar options at '
          'and beyond their documented ranges; the interpreter emits an obligation at every load/store, integer division, nsw operation, float->int '
          'conversion and free, and z3 shows each is unviolable within the length bound - or returns inputs, which are replayed under '
          'AddressSanitizer + UBSan on the natively compiled kernel and reported only if the sanitizer confirms.',
     note='Bounds: lengths 0..3 (0..4 thorough), grids <= 1x3 quick / 2x2 thorough, orders 0..12. Instances that exhaust their time budget are listed as '
-         'inconclusive, never as passed. malloc never fails; Cython-generated code trusted; c_slice, c_delineate_boundary, c_exclude_zero_area_boundary, '
-         'c_olsleverage not encoded yet. Wrapper-side guards (zero-member ensembles, npoints, length mismatches) are validated with a recording '
+         'inconclusive, never as passed. malloc never fails; Cython-generated code trusted. '
+         'Wrapper-side guards (zero-member ensembles, npoints, length mismatches) are validated with a recording '
          'stand-in on every run. Two listed known findings (voronoi dead read, getdate out-of-range cast).',
     technique=TECH_A, engine='llir', ref='DESIGN.md section 3, C05')
 
